@@ -56,6 +56,12 @@ GenericRels == {"sequence_same_length", "mapped_same_length", "lengthen_then_sho
                 "lengthen_roundtrip_values", "shorten_roundtrip_values", "concat_rest_length",
                 "flatten_source_length", "flatten_output_length", "unflatten_source_length", "unflatten_output_length"}
 
+(* (v) bounds of the ordinary trait impls: the array has Default / Debug / PartialEq / Eq / PartialOrd / Ord / Hash exactly
+   when its element type has - an element type that implements ONLY the trait in question (and its supertraits) is
+   enough, one that implements nothing is not.  The by-value iterator likewise for Debug.                          *)
+BoundTraits == {"Default", "Debug", "PartialEq", "Eq", "PartialOrd", "Ord", "Hash"}
+BoundOK(elemHas) == elemHas
+
 Traits == {"Send", "Sync", "Clone", "Copy"}
 Elems == {"u8", "string", "rc", "cell", "rawptr", "noclone", "mutexguard"}
 Has(tr, e) ==
